@@ -15,3 +15,13 @@ package envelope
 //@ ensures[C07.payload,C18.payload] result.MediaType == targetArtifact.MediaType && result.Digest == targetArtifact.Digest && result.Size == targetArtifact.Size && result.Annotations == targetArtifact.Annotations && len(result.URLs) == 0 && len(result.Data) == 0 && result.Platform == nil && result.ArtifactType == ""
 
 //@ type-methods[C01.plain-decode,C07.plain-decode,C18.plain-decode] internal/envelope.Payload:
+
+// ---- SigningTime: proved (was an assumed contract until round 2) ----
+
+//@ func SigningTime
+//@ props C11 C12
+//@ pure
+//@ modifies nothing
+//@ ensures[C11.signing-time] (result1 == nil) == (signerInfo != nil && !timeIsZero(signerInfo.SignedAttributes.SigningTime))
+//@ ensures[C11.signing-time] result1 == nil ==> result == timeUTC(signerInfo.SignedAttributes.SigningTime)
+//@ ensures[C11.signing-time] result1 != nil ==> result == zero(time.Time)
